@@ -210,6 +210,8 @@ class Doc:
             yield from p.blocks
 
 
+_SPECIAL_CHARS = {"emdash": "\u2014", "endash": "\u2013", "emspace": "\u2003", "enspace": "\u2002", "qmspace": "\u2005", "bullet": "\u2022",
+                  "lquote": "\u2018", "rquote": "\u2019", "ldblquote": "\u201c", "rdblquote": "\u201d"}
 _DEST_SKIP = {"stylesheet", "info", "generator", "listtable", "listoverridetable", "themedata",
               "datastore", "latentstyles", "rsidtbl", "fldrslt"}
 
@@ -608,6 +610,17 @@ def parse(data) -> Doc:
                 st.ch["sub"] = 0
                 cur_para().events.append(("ctl", a, b))
                 continue
+            # control words that stand for one character (RTF 1.9, "special characters")
+            if a in _SPECIAL_CHARS and dest in ("body", "header", "footer"):
+                if skip > 0:
+                    skip -= 1
+                    if para is not None and para.uinfo:
+                        para.uinfo[-1][1] += 1
+                    if skip == 0:
+                        last_u = None
+                    continue
+                add_char(_SPECIAL_CHARS[a])
+                continue
             # anything else inside text: an in-text control (line, chpgn, totalpage, unknown)
             if dest in ("body", "header", "footer"):
                 cur_para().events.append(("ctl", a, b))
@@ -625,11 +638,11 @@ def parse(data) -> Doc:
                 if a in "\\{}":
                     add_char(a)
                 elif a == "~":
-                    add_char(" ")
+                    add_char("\u00a0")      # non-breaking space
                 elif a == "_":
-                    add_char("‑")
+                    add_char("\u2011")      # non-breaking hyphen
                 elif a == "-":
-                    pass
+                    add_char("\u00ad")      # optional hyphen
                 elif a == "*":
                     pass
                 else:
